@@ -136,6 +136,10 @@ func (r *runner) execOp(op *Op, phase string) {
 		r.w.mu.Unlock()
 		return
 	}
+	if op.Kind == KWalk {
+		r.execWalk(op, res)
+		return
+	}
 	if op.Kind == KRaw && r.worker != nil {
 		// administrative requests refer to ids handed out by earlier answers
 		cp := *op.Raw
@@ -689,6 +693,9 @@ func (r *runner) finalChecks() {
 	if r.has("no-5xx-without-fault") {
 		r.addV(checkNo5xx(r)...)
 	}
+	if r.has("pagination") {
+		r.addV(checkWalks(r)...)
+	}
 	if r.has("reads-are-scoped") {
 		r.addV(checkReadsAreScoped(r)...)
 	}
@@ -778,4 +785,81 @@ func (r *runner) organicVictim(opID string) int {
 	r.w.db.mu.Lock()
 	defer r.w.db.mu.Unlock()
 	return r.w.victims[opID]
+}
+
+// execWalk follows a listing's next cursors from the first page to the end (or MaxPages), then - if asked -
+// the previous cursors back from the last page. Every page is one request of the same client task.
+func (r *runner) execWalk(op *Op, res *OpResult) {
+	ws := op.Walk
+	base := "/v2/" + op.Ledger + "/" + ws.Resource
+	first := base + fmt.Sprintf("?pageSize=%d", ws.PageSize)
+	if ws.Sort != "" {
+		first += "&sort=" + ws.Sort
+	}
+	max := ws.MaxPages
+	if max == 0 {
+		max = 40
+	}
+	fetch := func(dir, path string) (WalkPage, bool) {
+		resp := r.w.Do(r.curInc(), op.ID, Request{Method: "GET", Path: path})
+		pg := WalkPage{Dir: dir, Status: resp.Status, Invoke: resp.Invoke, Return: resp.Return}
+		if resp.Crashed || resp.Aborted || resp.Panic != "" {
+			pg.Code = "no-answer"
+			return pg, false
+		}
+		var env struct {
+			Cursor struct {
+				PageSize int               `json:"pageSize"`
+				HasMore  bool              `json:"hasMore"`
+				Next     string            `json:"next"`
+				Previous string            `json:"previous"`
+				Data     []json.RawMessage `json:"data"`
+			} `json:"cursor"`
+			ErrorCode string `json:"errorCode"`
+		}
+		dec := json.NewDecoder(strings.NewReader(string(resp.Body)))
+		dec.UseNumber()
+		_ = dec.Decode(&env)
+		pg.Code = env.ErrorCode
+		pg.HasMore, pg.Next, pg.Previous, pg.PageSize = env.Cursor.HasMore, env.Cursor.Next, env.Cursor.Previous, env.Cursor.PageSize
+		for _, raw := range env.Cursor.Data {
+			var it struct {
+				ID      json.Number `json:"id"`
+				Address string      `json:"address"`
+			}
+			d := json.NewDecoder(strings.NewReader(string(raw)))
+			d.UseNumber()
+			_ = d.Decode(&it)
+			if ws.Resource == "accounts" {
+				pg.IDs = append(pg.IDs, it.Address)
+			} else {
+				pg.IDs = append(pg.IDs, it.ID.String())
+			}
+		}
+		return pg, resp.Status == 200
+	}
+	pg, ok := fetch("first", first)
+	res.Pages = append(res.Pages, pg)
+	for ok && pg.Next != "" && len(res.Pages) < max {
+		pg, ok = fetch("next", base+"?cursor="+pg.Next)
+		res.Pages = append(res.Pages, pg)
+	}
+	if ok && ws.Back {
+		for n := 0; ok && pg.Previous != "" && n < max; n++ {
+			pg, ok = fetch("prev", base+"?cursor="+pg.Previous)
+			res.Pages = append(res.Pages, pg)
+		}
+	}
+	res.Out = Outcome{Class: "ok", Status: 200, Invoke: res.Pages[0].Invoke, Return: res.Pages[len(res.Pages)-1].Return}
+	if !ok {
+		res.Out.Class, res.Out.Status, res.Out.Code = "client_err", pg.Status, pg.Code
+		if pg.Status >= 500 || pg.Status == 0 {
+			res.Out.Class = "server_err"
+		}
+	}
+	r.w.mu.Lock()
+	r.results = append(r.results, res)
+	r.byID[op.ID] = res
+	r.doneLines = append(r.doneLines, fmt.Sprintf("done %s walk %s size=%d sort=%s -> %d pages, last %d %s", op.ID, ws.Resource, ws.PageSize, ws.Sort, len(res.Pages), pg.Status, pg.Code))
+	r.w.mu.Unlock()
 }
